@@ -282,14 +282,6 @@ FAMILIES = {
 
 # fixed-size edge inputs (constant expressions at the limits, sizes near 2^64, ...)
 EDGES = [
-    # the built-in va_list type (an array of a structure, a structure, a pointer - per target) in every initialiser form
-    "typedef __builtin_va_list va_list; va_list ap = {0};", "typedef __builtin_va_list va_list; void f(void) { va_list ap = {0}; (void)ap; }",
-    "typedef __builtin_va_list va_list; va_list a = { {1} };", "typedef __builtin_va_list va_list; va_list b = { [0] = {0} };",
-    "typedef __builtin_va_list va_list; struct w { va_list a; int k; } y = { 1, 4 };", "typedef __builtin_va_list va_list; struct w { int k; va_list a; } y = { 1, 4 }; va_list c = \"abc\";",
-    "typedef __builtin_va_list va_list; struct w { va_list a; int k; } x = { .k = 3 }, y = { {}, 4 }, z = { .a = {}, .k = 1 }; void f(void) { va_list a = { .q = 1 }; }",
-    "typedef __builtin_va_list va_list; void f(int n, ...) { va_list ap, bp = {}; __builtin_va_start(ap, n); __builtin_va_copy(bp, ap); (void)(va_list){}; (void)(va_list){0}; __builtin_va_end(ap); }",
-    "typedef __builtin_va_list va_list; va_list g; int f(void) { return sizeof g + _Alignof(va_list) + sizeof *&g + (g == g); }", "typedef __builtin_va_list va_list; va_list g; void *f(void) { return &g.x; }",
-    "typedef __builtin_va_list va_list; va_list g, h; void f(void) { g = h; g++; -g; *g; g[0]; g(); }", "typedef __builtin_va_list va_list; va_list f(va_list a) { return a; } void g(va_list a) { f(a); }",
     # initialisers and compound literals of types that are not object types
     "int *x = &(int(int)){2};", "void f(void){(void){0};}", "void f(void){sizeof((int(void)){0});}", "typedef void F(void);F g={0};", "void f(void){(struct u){0};}",
     "typedef int A[];void f(void){(A){};}", "void f(int n){(int[n]){0};}", "void v={};",
@@ -445,6 +437,14 @@ EDGES = [
     "void f(float x){x % 2;}", "void f(float x){x << 1;}", "void f(float x){~x;}", "void f(float x){x & 1;}", "void f(float x){x ? 1 : 2; !x; x && x; -x; +x; x++; --x;}", "void f(double x){(int *)x;}", "void f(int *x){(double)x;}", "void f(int *x){(float)x;}", "void f(int *x){(char)x; (long)x; (_Bool)x;}", "void f(void){(void)1; (void)(void)1; (int)(void)1;}",
     "void f(void){-(void)1;}", "void f(void){&1;}", "void f(void){&(int){1}; &\"a\"; &*\"a\"; &f; *f; **f; &*f;}", "void f(register int x){&x;}", "void f(int x){&x++; }", "void f(int x){x++++;}", "void f(int x){++x++;}", "void f(int x){(x)++; ++(x);}", "void f(int x){-x++; - -x; -+-x; !~x;}",
     "void f(int x){x+++x; x---x; x+++++x;}", "void f(int x){x = x = x; x += x -= x; x <<= x >>= 1;}", "void f(int x){(x = 1) = 2;}", "void f(int x){(x, x) = 2;}", "void f(int x){(x ? x : x) = 2;}", "void f(int x){1 ? x : x = 2;}", "void f(int a, int b){a = b += 1, b;}", "void f(int *p){*p++ = 1; *++p = 2; (*p)++; ++*p;}", "void f(char *p, char *q){while(*p++ = *q++);}",
+    # the built-in va_list type (an array of a structure, a structure, a pointer - per target) in every initialiser form
+    "typedef __builtin_va_list va_list; va_list ap = {0};", "typedef __builtin_va_list va_list; void f(void) { va_list ap = {0}; (void)ap; }",
+    "typedef __builtin_va_list va_list; va_list a = { {1} };", "typedef __builtin_va_list va_list; va_list b = { [0] = {0} };",
+    "typedef __builtin_va_list va_list; struct w { va_list a; int k; } y = { 1, 4 };", "typedef __builtin_va_list va_list; struct w { int k; va_list a; } y = { 1, 4 }; va_list c = \"abc\";",
+    "typedef __builtin_va_list va_list; struct w { va_list a; int k; } x = { .k = 3 }, y = { {}, 4 }, z = { .a = {}, .k = 1 }; void f(void) { va_list a = { .q = 1 }; }",
+    "typedef __builtin_va_list va_list; void f(int n, ...) { va_list ap, bp = {}; __builtin_va_start(ap, n); __builtin_va_copy(bp, ap); (void)(va_list){}; (void)(va_list){0}; __builtin_va_end(ap); }",
+    "typedef __builtin_va_list va_list; va_list g; int f(void) { return sizeof g + _Alignof(va_list) + sizeof *&g + (g == g); }", "typedef __builtin_va_list va_list; va_list g; void *f(void) { return &g.x; }",
+    "typedef __builtin_va_list va_list; va_list g, h; void f(void) { g = h; g++; -g; *g; g[0]; g(); }", "typedef __builtin_va_list va_list; va_list f(va_list a) { return a; } void g(va_list a) { f(a); }",
 ]
 
 
